@@ -354,7 +354,27 @@ pub fn opts_from_json(v: &Value) -> Opts {
 }
 
 pub fn file_json(f: &PqFile) -> Value {
+    if let Some(g) = &f.grid {
+        return json!({"grid": {"ty": g.ty, "enc": g.enc, "v2": g.v2, "nullable": g.nullable, "paged": g.paged}, "name": f.name, "rows": f.nrows});
+    }
     json!({"schema": SCHEMA_NAMES[f.sid], "sid": f.sid, "layout": f.lid, "rows": f.nrows, "row_groups": f.rg_sizes, "layout_detail": format!("{:?}", f.layout)})
+}
+
+/// rebuilds the file a replay descriptor (`file_json`) names
+pub fn pqfile_from_json(f: &Value) -> Result<PqFile, String> {
+    let n = f["rows"].as_u64().unwrap_or(8) as usize;
+    if !f["grid"].is_null() {
+        let g = &f["grid"];
+        let spec = GridSpec {
+            ty: g["ty"].as_u64().unwrap() as usize,
+            enc: g["enc"].as_u64().unwrap() as usize,
+            v2: g["v2"].as_bool().unwrap(),
+            nullable: g["nullable"].as_bool().unwrap(),
+            paged: g["paged"].as_bool().unwrap(),
+        };
+        return make_grid_file(spec, n);
+    }
+    Ok(make_file(f["sid"].as_u64().unwrap() as usize, f["layout"].as_u64().unwrap() as usize, n))
 }
 
 // ------------------------------------------------------------------------------------------------
